@@ -305,6 +305,49 @@ def checkC11 (env : MEnv) (h : Heap) (target root : Val) (orig : List Step) (vs 
     obs.res.isErr && (!atomic || obs.heap.take h.length == h)
   | .unsupported => false
 
+/-! ### reading the path back in a later step of the same chain -/
+
+/-- what the read-back step of `(Assign(…), readPath)` showed -/
+inductive ReadObs where
+  | notRun                 -- the Assign raised: the chain ended there
+  | ok (n : Nest)          -- the value read (`k` wildcards: `k` levels of fresh lists around the entries)
+  | err (e : ObsRes)       -- the read raised
+  deriving Repr
+
+def ReadObs.beq : ReadObs → ReadObs → Bool
+  | .notRun, .notRun => true
+  | .ok a, .ok b => Nest.beq a b
+  | .err a, .err b => a == b
+  | _, _ => false
+
+def observeRead (env : MEnv) : Option (Except MErr Nest) → ReadObs
+  | none => .notRun
+  | some (.ok n) => .ok n
+  | some (.error e) => .err (observeErr env e)
+
+/-- **Put-get, evaluated on an observation**: after a successful assign the read-back step sees
+    exactly what the same path reads in the heap the plain-Python assignment leaves — for an
+    S-rooted path that includes the binding made in the scope frame —: the addressed objects in
+    order (below `k` wildcards: `k` list levels), or a PathAccessError at the segment where the
+    walk stops; after a failed assign the read never runs.  (Not evaluated when the assignment
+    stored a *hidden* attribute — on an instance of a container subclass with a `__dict__`.) -/
+def checkRead (env : MEnv) (h : Heap) (target root : Val) (orig : List Step) (vs : ValSpec)
+    (missing : Missing) (rd : List Step) (ro : ReadObs) : Bool :=
+  match refAssign env h target root orig vs missing with
+  | .ok _ true _ => true     -- Python stored an attribute where the cell layout cannot show it
+  | .ok h' false _ =>
+    (match matchesOf env h' rd 0 root with
+     | .ok ds => (match ro with
+        | .ok n => n.uniform (stars rd) && n.leaves == ds
+        | _ => false)
+     | .fail k e _ => (match ro with
+        | .err o => o == obsErr env "PathAccessError" (some e.cls) (some k) none true
+        | _ => false)
+     | .unreg => (match ro with | .err _ => true | _ => false)
+     | .unsupported => true)
+  | .fail _ => (match ro with | .notRun => true | _ => false)
+  | .unsupported => true
+
 /-! ### well-formedness of the extracted facts -/
 
 /-- in registry table `reg` the two virtual (duck) types carry the handler of `object` -/
